@@ -582,7 +582,9 @@ func checkC13(c *run.Ctx) {
 			case 1:
 				l.Seq = append(l.Seq, doc.M(doc.P("nokind_"+gen.Ident(r), doc.I(int64(k)))))
 			case 2:
-				l.Seq = append(l.Seq, doc.S(gen.Ident(r)+"-scalar"))
+				// an unrecognised scalar step, now and then padded with white space (kept verbatim, padding included)
+				pad := []string{"", "", "", " ", "\n", "\t", "\u2028", "\r\n"}
+				l.Seq = append(l.Seq, doc.S(pad[r.IntN(len(pad))]+gen.Ident(r)+"-scalar"+pad[r.IntN(len(pad))]))
 			case 3:
 				l.Seq = append(l.Seq, doc.M(doc.P("command", doc.S("ok")), doc.P("matrix", doc.I(5)))) // typed field of the wrong type -> fallback
 			default:
